@@ -1258,17 +1258,23 @@ theorem midRun_inv (s : Spec κ ν) (st st' : St κ ν) (cur : Cur κ ν) (inv :
 
 /-- the invariant survives every event: runs, round trips at rest, snapshots taken mid-run -/
 theorem evs_inv (s : Spec κ ν) (st : St κ ν) (hs : List (Ev κ ν)) (v : Valid s)
-    (hc : ∀ cur order, Ev.run cur order ∈ hs → Good s cur → Covers order (combos s cur).length)
+    (hc : ∀ cur order, (Ev.run cur order ∈ hs ∨ Ev.rrun cur order ∈ hs) → Good s cur →
+      Covers order (combos s cur).length)
     (inv : Inv s st) : Inv s (evs s st hs) := by
   induction hs generalizing st with
   | nil => exact inv
   | cons e r ih =>
-    have hr : ∀ cur order, Ev.run cur order ∈ r → Good s cur → Covers order (combos s cur).length :=
-      fun cur order h => hc cur order (List.mem_cons_of_mem _ h)
+    have hr : ∀ cur order, (Ev.run cur order ∈ r ∨ Ev.rrun cur order ∈ r) → Good s cur →
+        Covers order (combos s cur).length :=
+      fun cur order h => hc cur order (h.elim (fun h => Or.inl (List.mem_cons_of_mem _ h))
+        (fun h => Or.inr (List.mem_cons_of_mem _ h)))
     cases e with
     | run cur order =>
       simp only [evs]
-      exact ih _ hr (run_inv s st cur order v (hc cur order (by simp)) inv)
+      exact ih _ hr (run_inv s st cur order v (hc cur order (Or.inl (by simp))) inv)
+    | rrun cur order =>
+      simp only [evs, runByValue, reload]
+      exact ih _ hr (run_inv s st cur order v (hc cur order (Or.inr (by simp))) inv)
     | reload =>
       simp only [evs, reload]
       exact ih _ hr inv
